@@ -7,11 +7,3 @@ def c04_deep_syntactic_nesting_overflows_native_stack(op, impl, model, args):
     return (op.get("op") == "total.observe" and op.get("family") == "nest"
             and op.get("n", 0) >= args.get("min_n", 1000)
             and impl.get("outcome") == "crash" and bool(impl.get("stack_overflow")))
-
-
-def c04_float_conversion_of_huge_number_debug_assert(op, impl, model, args):
-    """`%f`-family conversion of a number whose scaled value overflows to infinity: the fraction
-    becomes NaN and trips render_integer's debug_assert (debug-assertion builds only)"""
-    return (op.get("op") == "total.observe" and impl.get("outcome") == "panic"
-            and "render_integer receives sign using arg" in (impl.get("panic") or "")
-            and "%" in ((op.get("case") or {}).get("code") or ""))
